@@ -162,11 +162,15 @@ class HitranCiaGrid(Logger):
             Master temperature grid
 
         """
+        # Range actually covered by this grid; rows inserted below must not widen it
+        measured_min = min(self.temperature)
+        measured_max = max(self.temperature)
+
         for t in temperatures:
             if t in self.temperature:
                 continue
             self.debug('Tempurature %s, %s', t)
-            if t < min(self.temperature) or t > max(self.temperature):
+            if t < measured_min or t > measured_max:
                 self.add_temperature(t, np.zeros_like(self.wn))
             else:
                 indicies = self.find_closest_temperature_index(t)
